@@ -22,7 +22,7 @@ func init() {
 	register(&Rule{ID: "SIB-equality", Props: []string{"C05", "C07", "C08", "C11"}, Min: 10,
 		Doc: "T+S (ES5 §9.12, §11.9.6, §8.12.9, §15.4.4.14-15, §12.11): the three same-kind comparison implementations (sameValue, strictEqualityComparison, the kind==kind block of calculateComparison) have an arm for exactly the six script-visible kinds and read the payload with the accessor of that kind; only sameValue distinguishes the zeros (math.Signbit) and equates NaN with itself; [[DefineOwnProperty]] compares values with sameValue and nothing else; indexOf, lastIndexOf and the switch statement compare with the strict algorithm and never with sameValue",
 		Run: ruleSibEquality})
-	register(&Rule{ID: "CLONE-loops", Props: []string{"C17"}, Min: 4,
+	register(&Rule{ID: "CLONE-loops", Props: []string{"C17"}, Min: 2,
 		Doc: "P: a loop inside a clone function that walks a collection of the original (properties, getter/setter pair, stash entries, bound arguments, slices) runs to exhaustion: it contains no break out of the loop and no return; leaving early copies a prefix and silently drops the rest",
 		Run: ruleCloneLoops})
 	register(&Rule{ID: "OWN-frame", Props: []string{"C19", "C20"}, Min: 6,
